@@ -116,6 +116,9 @@ func observeVariants() {
 		// Record with numHeaders = 2^40 (zig-zag varint 8080808080 8001 → 2^41 → 2^40): "0e" length 7? built below
 		{"recordHeaderCount", "d Record 0 " + recordWithHeaderCount(),
 			func(a, d string) bool { return has(a, "panic") || has(a, "oversize") || d != "" }, func(a, d string) bool { return has(a, "err\tinsufficient") }},
+		// MetadataResponse loop heads: make([]T, -1) (pinned) or `if n < 0 { return errInvalidArrayLength }`
+		{"metadataLoopHeads", "d MetadataResponse 0 ffffffff",
+			func(a, d string) bool { return has(a, "panic") }, func(a, d string) bool { return has(a, "err\tinvalidArrayLength") }},
 		// a length varint that is the non-canonical 2-byte encoding of (covered bytes + 1)
 		{"varintLengthField", "p pinned varintLengthField 8600aabb 0 2",
 			func(a, d string) bool { return has(a, "ok - 4") }, func(a, d string) bool { return has(a, "err lengthField 4") }},
@@ -632,7 +635,11 @@ func judge(op entryOp, r opResult) {
 				ans = "oversize"
 			}
 		}
-		run.Emit("fmt "+variants[e.Variant]+" "+e.Model+" "+hx(op.input), ans)
+		model := e.Model
+		if model == "MetadataResponseV0" && variants["metadataLoopHeads"] == "checked" {
+			model = "MetadataResponseV0Guarded"
+		}
+		run.Emit("fmt "+variants[e.Variant]+" "+model+" "+hx(op.input), ans)
 	}
 }
 
@@ -791,6 +798,17 @@ func replayOps(lines []string) {
 		}
 		switch t[0] {
 		case "p", "crc", "hdr":
+			if t[0] == "p" && len(t) > 2 && t[1] == "auto" {
+				// corpus lines: the variant the tree under test has for this primitive
+				v := "pinned"
+				for _, ps := range prims {
+					if ps.name == t[2] && ps.vkey != "" {
+						v = variants[ps.vkey]
+					}
+				}
+				t[1] = v
+				l = strings.Join(t, " ")
+			}
 			prim = append(prim, l)
 		case "fmt":
 			if len(t) != 4 {
@@ -798,7 +816,7 @@ func replayOps(lines []string) {
 			}
 			for _, name := range entryOrder {
 				e := entryByName[name]
-				if e.Model == t[2] {
+				if e.Model == t[2] || e.Model+"Guarded" == t[2] {
 					data := unhex(t[3])
 					ent = append(ent, entryOp{line: "d " + e.Name + " " + strconv.Itoa(int(e.ModelV)) + " " + hx(data), entry: e, ver: e.ModelV, kind: "replay", input: data})
 				}
